@@ -56,10 +56,10 @@ func GenC04(tier string, seed uint64) []*Case {
 	cancels := []int{-1, 0, 1, 2, 3}
 	nrand := 120
 	if tier == "thorough" {
-		groups = [][2]int{{0, 1}, {1, 2}, {2, 0}, {0, 0}, {1, 1}, {2, 2}, {5, 3}, {3, 5}}
-		maxPrefix = 4
-		cancels = []int{-1, 0, 1, 2, 3, 4, 5, 6}
-		nrand = 1500
+		groups = [][2]int{{0, 1}, {1, 2}, {2, 0}, {0, 0}, {1, 1}, {2, 2}, {5, 3}, {3, 5}, {4, 1}, {1, 4}, {0, 5}, {7, 0}, {3, 3}, {8, 2}}
+		maxPrefix = 5
+		cancels = []int{-1, 0, 1, 2, 3, 4, 5, 6, 7}
+		nrand = 12000
 	}
 	scripts := spScripts(maxPrefix)
 	for _, g := range groups {
@@ -250,14 +250,20 @@ func GenC07(tier string, seed uint64) []*Case {
 	}
 	r := hutil.NewRng(seed ^ 0xc07)
 	nrand, nfault := 1200, 60
+	depthSpan := 3
+	if tier == "thorough" {
+		depthSpan = 4
+	}
 	if tier == "thorough" {
 		for _, t := range allScopes(2, 2, outs2, true) {
 			add("enum.d2w2", t, entries[0])
+			add("enum.d2w2", t, entries[1])
 		}
 		for _, t := range allScopes(3, 1, outs2, true) {
 			add("enum.d3w1", t, entries[0])
+			add("enum.d3w1", t, entries[1])
 		}
-		nrand, nfault = 8000, 600
+		nrand, nfault = 90000, 4000
 	} else {
 		// a seeded sample of the depth-2/width-2 and depth-3 chains
 		d2 := allScopes(2, 2, outs2, true)
@@ -276,7 +282,7 @@ func GenC07(tier string, seed uint64) []*Case {
 			e.Role = []string{"Launcher", "Participant"}[r.Intn(2)]
 			e.Name = 7
 		}
-		add("random", randScope(r, 2+r.Intn(3), 2, true), e)
+		add("random", randScope(r, 2+r.Intn(depthSpan), 2+i%2*(depthSpan-3), true), e)
 	}
 	// trees under faults (transport errors cost 100-200 ms each: kept small)
 	for i := 0; i < nfault; i++ {
